@@ -2,9 +2,10 @@
 import ps, oracle, countlib
 
 LEVEL = "proof"
-THEOREMS = ["C04_count_additive", "C04_small_primes_split", "C04_tiling_counts"]
+THEOREMS = ["C04_count_additive", "C04_small_primes_split", "C04_tiling_counts", "C04_segments_ok", "C04_segments_terminate", "C04_step_tables_ok", "C04_step_lift",
+            "C04_cross_off_refines", "C04_kernel_segment", "C04_kernel_next_states", "C04_addSievingPrime_state"]
 ASSUMPTIONS = [
-    "erat_spec (the segmented sieve marks exactly the primes of [max(start,7), stop]) is the hypothesis under which the count equals the specification; it is exercised by the correspondence at segment seams, byte/bit edges and p*q boundaries for 7 sieve sizes, 1..16 threads and two dispatch builds",
+    "erat_spec (the segmented sieve marks exactly the primes of [max(start,7), stop]) is the hypothesis under which the count equals the specification. Proved of the kernel: segment geometry, step tables, cross-off loop = specification, the per-segment theorem (bit set iff prime), state hand-over between segments, addSievingPrime's initial state. NOT proved: their assembly over the segment loop, SievingPrimes, presieve, EratMedium/EratBig bucket lists and SievingPrime bit packing, bit decoding, masking at the interval ends - exercised by the correspondence at segment seams, byte/bit edges, p*q boundaries, sieve arrays above 4 MiB, 7 sieve sizes, 1..16 threads, two dispatch builds, and by the cross-off unit comparison (XOFF)",
     "popcount (POPCNT instruction / Harley-Seal) is modelled as the number of set bits",
 ]
 EXPLANATION = "Coq theorems on additivity / tiling / the 2,3,5 split + kernel-boundary correspondence of count_primes (C++ and C) with an independent segmented sieve"
